@@ -208,8 +208,36 @@ class Normalizer(ast.NodeTransformer):
         return {n.id for n in ast.walk(fn) if isinstance(n, ast.Name) and id(n) not in inside}
 
     # ------------------------------------------------------------------ N5 / N6
+    def visit_BinOp(self, node):
+        self.generic_visit(node)
+        if isinstance(node.op, ast.Add) and isinstance(node.left, ast.Constant) and isinstance(node.right, ast.Constant) \
+                and isinstance(node.left.value, str) and isinstance(node.right.value, str):
+            self.count += 1
+            return ast.copy_location(ast.Constant(value=node.left.value + node.right.value), node)
+        return node
+
+    def visit_Compare(self, node):
+        self.generic_visit(node)
+        if len(node.ops) == 1 and isinstance(node.left, ast.Constant) and isinstance(node.comparators[0], ast.Constant) \
+                and isinstance(node.ops[0], (ast.Eq, ast.NotEq)) and type(node.left.value) is type(node.comparators[0].value):
+            self.count += 1
+            v = node.left.value == node.comparators[0].value
+            return ast.copy_location(ast.Constant(value=v if isinstance(node.ops[0], ast.Eq) else not v), node)
+        return node
+
+    def visit_IfExp(self, node):
+        self.generic_visit(node)
+        if isinstance(node.test, ast.Constant):
+            self.count += 1
+            return node.body if node.test.value else node.orelse
+        return node
+
     def visit_If(self, node):
         self.generic_visit(node)
+        if isinstance(node.test, ast.Constant):
+            self.count += 1
+            keep = node.body if node.test.value else node.orelse
+            return keep or [ast.copy_location(ast.Pass(), node)]
         # N6: if c: x = a  else: x = b   ->   x = a if c else b      (x a plain name or attribute)
         if len(node.body) == 1 and len(node.orelse) == 1 and all(
                 isinstance(s, ast.Assign) and len(s.targets) == 1 and isinstance(s.targets[0], (ast.Name, ast.Attribute))
@@ -472,9 +500,14 @@ def _search_loops(tree) -> int:
     return count
 
 
-def normalize(tree: ast.Module) -> ast.Module:
+def normalize(tree: ast.Module, inline: bool = True) -> ast.Module:
+    ninl = 0
+    if inline:
+        from .inline import inline_helpers
+        ninl = inline_helpers(tree)
     n = Normalizer()
     tree = n.visit(tree)
+    n.count += ninl
     n.count += _search_loops(tree)
     cp = _CopyProp()
     for f in [x for x in ast.walk(tree) if isinstance(x, (ast.FunctionDef, ast.AsyncFunctionDef))]:
